@@ -45,7 +45,7 @@ impl Property for C03 {
         vec!["messages shorter than the 16-byte header are compared by content (per-content counts)".into()]
     }
     fn pbt(&self, tier: Tier) -> PbtCfg {
-        PbtCfg { cases: tier.pick(120_000, 4_000_000), max_len: tier.pick(1500, 5000), shrink_ms: 120_000 }
+        PbtCfg { cases: tier.pick(120_000, 2_000_000), max_len: tier.pick(1500, 5000), shrink_ms: 120_000 }
     }
     fn required_labels(&self) -> Vec<&'static str> {
         vec!["unrel_slice_lost", "unrel_slice_sent", "boundary_len", "packed_small", "data_dup", "reordered", "tiny_msg"]
